@@ -17,8 +17,8 @@ import (
 
 	evmtypes "github.com/tharsis/ethermint/x/evm/types"
 
-	commitmenttypes "github.com/teleport-network/teleport/x/xibc/core/commitment/types"
 	clienttypes "github.com/teleport-network/teleport/x/xibc/core/client/types"
+	commitmenttypes "github.com/teleport-network/teleport/x/xibc/core/commitment/types"
 )
 
 const DefaultGas = 40_000_000
@@ -69,7 +69,6 @@ func (c *Chain) CosmosTxWith(signer *Account, num, seq uint64, msgs ...sdk.Msg) 
 	}
 	return c.Enc.TxEncoder()(b.GetTx())
 }
-
 
 // EthTx builds and signs an Ethereum transaction (gas price 0; the fee market runs with NoBaseFee).
 func (c *Chain) EthTx(signer *Account, to *common.Address, value *big.Int, data []byte) ([]byte, error) {
